@@ -637,11 +637,21 @@ def run(tier, seed, t0):
             if bpats[i::nb]:
                 shards.append(("bounded", (bpats[i::nb], frozens, seeds, bound, retry)))
     else:
-        # thorough: shard over (pattern chunk, frozen chunk)
+        # thorough: shard over (pattern chunk, frozen chunk).  Every 6-mer x every frozen set of up to two sites x three base tapes
+        # within one deviation; every 6-mer x three frozen sets x one base tape within TWO deviations; every <=4-run 8-mer x
+        # the frozen sets of at most one site x three base tapes within one deviation.  (Two deviations on everything was the
+        # original plan; it does not finish within hours - see DESIGN 9.2.)
+        six = [p for p in bpats if len(p) == 6]
+        eight = [p for p in bpats if len(p) == 8]
         for i in range(nb):
             for fchunk in spaces.chunks(frozens, 4):
-                if bpats[i::nb]:
-                    shards.append(("bounded", (bpats[i::nb], fchunk, seeds, bound, retry)))
+                if six[i::nb]:
+                    shards.append(("bounded", (six[i::nb], fchunk, seeds, 1, retry)))
+            if six[i::nb]:
+                shards.append(("bounded", (six[i::nb], [(), (0,), (2, 3)], seeds[:1], 2, retry)))
+            for fchunk in spaces.chunks([f_ for f_ in frozens if len(f_) <= 1], 3):
+                if eight[i::nb]:
+                    shards.append(("bounded", (eight[i::nb], fchunk, seeds, 1, retry)))
     # medium-size inputs with many residues of one sign in mixed spelling (cluster sizes 5..9 only exist here): retry moves,
     # all tapes within 1 (thorough 2) deviations of 6 (thorough 8) base tapes each
     med = ["++0++0+++0", "--0+-0---0-+", "+-++-+0+-+-+0+", "0++++0-++++0", "-+--0--+---0-", "+++0+++0+++0++"]
@@ -663,14 +673,16 @@ def run(tier, seed, t0):
              "or not). swapRes: all (i,j) with -L <= i,j < L. full_shuffle, swapRandChargeRes, get_shuffled_sequence, SequencePermutants.get_permutant: "
              "COMPLETE tree of all outcomes of the internal random draws (scripted random.Random: every value of every _randbelow, "
              "both sides of every float comparison) x every frozen subset (as %s) and five frozen sets with members outside the sequence (len, len+1, -1, 10^6). permute_block_swap / permute_cluster_charges: "
-             "%d patterns x %d frozen sets, all tapes within %d deviation(s) of %d base tape(s) (VERIF_SEED-derived), horizon 60 choice "
+             "%d patterns x %d frozen sets, all tapes within %s of %d base tape(s) (VERIF_SEED-derived), horizon 60 choice "
              "points, retry bound %d candidate children (cut executions are 'truncated' and not judged); plus 6 medium-size patterns (10-14 residues, 6-11 residues of one sign in alternating K/R, D/E spelling) x 6-8 base tapes. Chains: BFS over live "
              "objects under swapRes/full_shuffle/swapRandChargeRes x all tapes to the fixpoint of (arrangement, cached) states from "
              "%d roots; two-move sequences with a different single-site frozen set per move (complete trees of both moves); one frozen-set "
              "object reused on a short and then a longer sequence. Oracle per execution: child is a rearrangement, frozen positions keep their residue, child.len / charge "
              "pattern / counts equal a fresh object's, carried delta-max equals a fresh delta-max, with warmed parent caches the child's SCD/delta/FCR/NCPR/counts/hydropathy equal a "
              "fresh object's and its delta-max permutant is a rearrangement of its own residues attaining the fresh delta-max, deep snapshot of the parent unchanged, package state unchanged, shuffles and swaps never raise; transitions = executions" % (
-                 Lc, "/".join(fkinds), len(bpats), len(frozens), bound, len(seeds), retry, len(chains)),
+                 Lc, "/".join(fkinds), len(bpats), len(frozens),
+                 "1 deviation" if tier == "quick" else "1 deviation (6-mers: every frozen set of up to two sites; <=4-run 8-mers: frozen sets of at most one site) "
+                 "and within 2 deviations for every 6-mer x three frozen sets x one base tape", len(seeds), retry, len(chains)),
         bounds={"L_complete": Lc, "bounded_patterns": len(bpats), "frozen_sets_bounded": len(frozens), "deviations": bound,
                 "base_tapes": len(seeds), "horizon": 60, "retry_bound": retry, "chain_roots": len(chains)},
         exhaustive=True,
